@@ -93,7 +93,7 @@ theorem C04_roundtrip_partial (F : NumFmt) (is : List Instruction)
         printProgramTokens F (build is').listing = .ok ts := by
   apply C02_roundtrip_exact F is
   · intro i hi; exact parsedInstr_of_wellFormed i (hw i hi) (hp i hi) (hk i hi)
-  · intro i hi; exact plainKind_provedKind (hk i hi)
+  · intro i hi; exact QV.C02.provedKind_of_lineKind (plainKind_provedKind (hk i hi))
   · intro i hi
     have := hk i hi
     cases i <;> simp_all [plainKind, numTokInstr]
@@ -123,9 +123,7 @@ theorem C04_roundtrip_api (F : NumFmt) (is : List Instruction)
     (firstErrList_none_iff _).mpr (hasPlaceholders_false _ (fun i hi => hp i (hL i hi)))
   have hblock : ∀ i ∈ (build is).listing, blockOk (toks F i) = true := by
     intro i hi
-    obtain ⟨t, r, ht, _⟩ := toks_head F i
-    exact blockOk_of_noNL _ (by rw [ht]; simp)
-      (fun t ht h => noNL_of_provedKind F i (apiKind_provedKind (hk i (hL i hi))) (hn i (hL i hi)) (h ▸ ht))
+    exact blockOk_of_lineKind F i (apiKind_provedKind (hk i (hL i hi))) (hn i (hL i hi))
   have hcollapse : collapseNL (programRaw F (build is).listing) = programRaw F (build is).listing :=
     collapseNL_of_noAdj _ (noAdjNL_programRaw F _ hblock).1
   have hprint : printProgramTokens F (build is).listing = .ok (programRaw F (build is).listing) := by
@@ -134,8 +132,8 @@ theorem C04_roundtrip_api (F : NumFmt) (is : List Instruction)
     rw [build_map normInstr slotOf_normInstr, build_listing_build]
   refine ⟨_, hprint, ?_, hbuild, ?_⟩
   · exact parseProgram_programRaw F normInstr (build is).listing
-      (fun i hi => rt_of_apiKind F _ i (hw i (hL i hi)) (hp i (hL i hi)) (hk i (hL i hi)) (hn i (hL i hi))
-        (length_toks_le_programRaw F _ i hi))
+      (fun i hi => (rt_of_apiKind F _ i (hw i (hL i hi)) (hp i (hL i hi)) (hk i (hL i hi)) (hn i (hL i hi))
+        (length_toks_le_programRaw F _ i hi)).top)
   · rw [hbuild, listing_mapProg]
 
 /-- **C04 at TEXT level, for the canonical layout**: under the hypotheses of `C04_roundtrip_api`, if the printed
